@@ -1,0 +1,14 @@
+//go:build verif
+
+package sync
+
+// VerifLocked reports whether the map's lock is held by anybody at this instant (verification
+// harness only). Called from inside a callback of one of the ...WithFunc operations it tells
+// whether the callback runs inside the operation's critical section.
+func (m *Map[K, V]) VerifLocked() bool {
+	if m.mutex.TryLock() {
+		m.mutex.Unlock()
+		return false
+	}
+	return true
+}
